@@ -187,6 +187,36 @@ async def _special_session(loop, backend):
     return fails
 
 
+async def _big_dir_session(loop, backend, n):
+    """a directory with many entries (more than any batch size a backend may use internally): every entry once"""
+    wd = W.World(loop, [W.UserSpec(None, None)], backend=backend)
+    await wd.start()
+    fails = []
+    try:
+        names = ["f%04d.bin" % i for i in range(n)]
+        wd.set_tree([(("big",), None)] + [(("big", nm), b"x" * (i % 7)) for i, nm in enumerate(names)] + [(("big", "sub"), None)])
+        client = aioftp.Client()
+        await client.connect("127.0.0.1", wd.port)
+        await client.login()
+        for flavour in ("MLSD", "LIST"):
+            got = [p.name for p, info in await client.list("/big", raw_command=flavour)]
+            if sorted(got) != sorted(names + ["sub"]):
+                missing = sorted(set(names + ["sub"]) - set(got))
+                twice = sorted(x for x in set(got) if got.count(x) > 1)
+                fails.append("%s of a directory with %d entries reports %d: missing %r, listed twice %r" % (flavour, n + 1, len(got), missing[:4], twice[:4]))
+        try:
+            await client.quit()
+        except Exception:
+            client.close()
+        await loop.settle()
+    finally:
+        try:
+            await wd.stop()
+        except Exception:
+            wd.finish()
+    return fails
+
+
 PRELUDES = [None, "list-before-login", "list-of-missing-directory", "stat-of-missing-path"]
 
 
@@ -205,6 +235,18 @@ def run(ctx):
             continue
         if fails:
             res.oracle_failures.append({"input": {"kind": "wire-special-files", "backend": backend}, "what": fails[0], "signature": "C07:wire:entry-type-differs-from-backend"})
+    for backend in ("memory", "pathio", "async"):
+        for n in ((128, 129, 300) if not ctx.thorough() else (1, 127, 128, 129, 255, 256, 257, 300, 1025)):
+            res.cases += 1
+            res.count("wire_big_directory_" + backend)
+            res.distinct.add(("wire-bigdir", backend, n))
+            try:
+                fails = simnet.run(_big_dir_session, backend, n)
+            except BaseException as e:  # noqa
+                res.disagreements.append({"correspondence": "C07 wire harness", "input": ["big-directory", backend, n], "impl": "%s: %s" % (type(e).__name__, e)})
+                continue
+            if fails:
+                res.oracle_failures.append({"input": {"kind": "wire-big-directory", "backend": backend, "entries": n}, "what": fails[0], "signature": "C07:wire:listing-differs-from-backend"})
     # the same client object after a refused or failed request: what it learns afterwards is the same
     for pi, prelude in enumerate(PRELUDES[1:]):
         for backend in ("memory",):
@@ -239,6 +281,10 @@ def run(ctx):
 
 
 def replay(inp):
+    if inp.get("kind") == "wire-big-directory":
+        fails = simnet.run(_big_dir_session, inp["backend"], inp["entries"])
+        print(fails)
+        return bool(fails)
     if inp.get("kind") == "wire-special-files":
         fails = simnet.run(_special_session, inp["backend"])
         print(fails)
